@@ -47,6 +47,47 @@ THEOREMS = [
     "Verif.C11.route_error",
     "Verif.C11.bias_correction_factor",
     "Verif.C11.mkModel_ok_iff",
+    # deepening round D: objective of the fit, uniqueness of its zero (recovery), driving-peak estimator after the FFT
+    "Verif.C11.fit_objective_nonneg",
+    "Verif.C11.fit_objective_zero_iff",
+    "Verif.C11.fit_objective_minimised_by_generating",
+    "Verif.C11.spectrum_model_lorentz_diode",
+    "Verif.C11.fit_recovery_unique_lorentz_diode",
+    "Verif.C11.fit_twin_minimiser",
+    "Verif.C11.fit_recovery_unique_lorentzian",
+    "Verif.C11.driving_peak_parabola_exact",
+    "Verif.C11.driving_peak_gaussian_recovery",
+    "Verif.C11.driving_peak_window_constants",
+    "Verif.C11.driving_peak_answer_sound",
+    "Verif.C11.driving_peak_bin_is_argmax",
+    "Verif.C11.driving_estimator_decomposes",
+    "Verif.C11.fit_validation_iff",
+    "Verif.C11.fit_validation_errors",
+    "Verif.C11.brenner_correction_pos",
+    "Verif.C11.brenner_singular_at_contact",
+    "Verif.C11.constructed_model_drag_pos",
+    "Verif.C11.error_propagation_constructed",
+    "Verif.C11.psdOr_lorentz_diode",
+    "Verif.C11.fit_recovery_unique_model",
+    "Verif.C11.driven_power_peak_is_max",
+    "Verif.C11.fit_parameter_vector_is_routable",
+    "Verif.C11.generating_parameters_within_bounds",
+    "Verif.C11.twin_within_bounds",
+    "Verif.C11.analytic_lorentzian_exact_of_two_frequencies",
+    "Verif.C11.active_recovers_generating_sensitivity",
+    "Verif.C11.calibrate_force_accepts_iff",
+    "Verif.C11.calibrate_force_setup",
+    "Verif.C11.calibrate_force_value_error_first",
+    "Verif.C11.driving_estimator_gaussian_spectrum",
+    "Verif.C11.robust_loss_zero_iff",
+    "Verif.C11.robust_loss_recovery_unique",
+    "Verif.C11.scaled_model_start",
+    "Verif.C11.hydro_spectrum_form",
+    "Verif.C11.psdOr_hydro_noFilter",
+    "Verif.C11.rational_spectrum_recovery_unique",
+    "Verif.C11.psdOr_fixed_diode_shapes",
+    "Verif.C11.fit_recovery_in_conditioning_box",
+    "Verif.C11.abs_of_solution_keeps_spectrum",
 ]
 RULE = (
     "corpus (8 representative + the open finding F-C11-1) + exhaustive option matrix (hydro x axial x distance{None, at the "
@@ -72,13 +113,28 @@ RULE = (
     "derived}); the model it built is compared cell by cell (drag, correction factor, kappa, Rd, Rf, errors) and hydro + "
     "axial must be rejected there as by the constructor. Non-trivial: the model was constructed and every reported number is finite (identities evaluated), "
     "a routing case, a non-singular analytical fit, a rejection of a configuration outside the documented domain, a "
-    "completed exploration fit."
+    "completed exploration fit. DEEPENING ROUND D: every exploration fit also sends the block-averaged spectrum and the "
+    "(uncorrected) fitted parameters to the model, whose objective chi^2 (op c11.chi2, all filters and the hydrodynamic "
+    "spectrum) must equal the chi_squared_per_deg the code reports; every driving-signal case sends numpy's spectrum of the "
+    "windowed record around the search range to the model's estimator (op c11.drive: search mask, peak bin, three-point "
+    "log-parabola, both RuntimeError branches, IndexError for an empty search range, vertex, amplitude, amp_std) and "
+    "compares (frequency, amplitude, amp_std) or the error; a deterministic small scope (3 frequencies x 6 guess offsets "
+    "incl. peak outside the search range and search range beyond Nyquist x {no, stronger, weaker} second tone inside the "
+    "range) exercises the peak search; the raise statements of lk.fit_power_spectrum are run over npts {3,4,5,12} x loss "
+    "{gaussian, lorentzian, unknown} x bias correction x {non-empty, empty} analytical range (op c11.fitvalidate); initial values and bounds of the filter parameters for every filter shape x two sample rates (op "
+    "c11.fitbounds); the keyword-argument glue of lk.calibrate_force (op c11.calibsetup): on every calibrate_force case "
+    "the filter it ended up with (per diode parameter fitted / fixed at which value / absent, number of fitted parameters), "
+    "and an exhaustive scope of the combinations it has to refuse (active x axial x transferred drag {None, 0, value} x fast "
+    "x fixed diode x hydro x driving data {None, empty, given} x guess {None, 0, negative, positive}); the robust loss "
+    "lorentzian_loss on a ScaledModel (op c11.lloss) for every filter shape x hydro at and around the generating parameters."
 )
 TRUSTED = [
     "RealLike formulas are proved over the reals and executed at Float: rounding is not modelled, the comparison "
     "tolerance (rel 1e-9; analytical fit: 1e-9 x conditioning scale supplied by the model) absorbs it",
-    "numpy.fft, scipy.optimize.curve_fit/minimize, scipy.signal.windows.gaussian, np.polyfit are NOT modelled: recovery "
-    "of (fc, D, f_diode, alpha) by the optimiser and of amplitude/frequency by the FFT estimator is exploration only",
+    "numpy.fft, scipy.optimize.curve_fit/minimize, scipy.signal.windows.gaussian are NOT modelled: that the optimiser "
+    "reaches the (proved unique) zero of the modelled objective, and that the spectrum of a Gaussian-windowed sinusoid is "
+    "the Gaussian the estimator is proved to invert, is exploration only; np.polyfit on three points is modelled as the "
+    "interpolating parabola (Newton form)",
     "active calibration: driving frequency/amplitude and the peak power density are measured by the code (FFT) and "
     "passed to the model as inputs",
 ]
@@ -88,6 +144,9 @@ ASSUMPTIONS = [
     "analytic_lorentzian_exact needs a0 + b0 f_k^2 != 0 for every k and a non-zero determinant (proved positive as "
     "soon as two frequencies with non-zero power have different squares)",
     "optimiser recovery explored only inside the conditioning box 3 f_min <= fc <= 0.3 f_diode",
+    "fit_recovery_unique_lorentz_diode needs f_c < f_diode for the candidate too (necessary: fit_twin_minimiser), four "
+    "frequencies with distinct squares in the spectrum, alpha < 1; non-hydrodynamic spectrum only",
+    "driving_peak_gaussian_recovery: three distinct bin frequencies, K, sigma > 0, centre inside the search range",
 ]
 
 KB = 1.380649e-23
@@ -316,7 +375,7 @@ def impl(case):
 
 
 def n_ops(case):
-    return {"passive": 1, "psd": 1, "active": 1, "route": 3, "anl": 1, "fit": 3, "drive": 0, "filter": 1, "calib": 1}[case["op"]]
+    return {"passive": 1, "psd": 1, "active": 1, "route": 3, "anl": 1, "fit": 4, "drive": 1, "fitval": 1, "bounds": 1, "calibval": 1, "lloss": 1, "filter": 1, "calib": 2}[case["op"]]
 
 
 def _impl(case, k):
@@ -379,10 +438,70 @@ def _impl(case, k):
         return impl_fit(case)
     if k == "calib":
         return impl_calib(case)
+    if k == "lloss":
+        # lorentzian_loss (module-level function of the anchored file) on a ScaledModel, as _fit_power_spectra calls it
+        try:
+            from lumicks.pylake.force_calibration import power_spectrum_calibration as psc
+            from lumicks.pylake.force_calibration.detail.power_models import ScaledModel
+
+            loss = psc.lorentzian_loss
+        except (ImportError, AttributeError) as e:
+            # neither has a public name: a moved / renamed one takes only this direct tie with it (the robust fit stays
+            # reachable through lk.fit_power_spectrum(loss_function="lorentzian") in the validation scope)
+            _reach["power_spectrum_calibration.lorentzian_loss / detail.power_models.ScaledModel"] = False
+            raise Unreachable(str(e))
+        _reach["power_spectrum_calibration.lorentzian_loss / detail.power_models.ScaledModel"] = True
+        m = build_model(case["o"], case.get("fixed"))
+        f, power = lloss_data(case, m)
+        sm = ScaledModel(lambda ff, *q: m(ff, *q), np.asarray(case["scale"], dtype=float))
+        v = loss(np.asarray(case["scaled"], dtype=float), sm, f, power, case["nblock"])
+        return ["ok " + enc_float(float(v))]
+    if k == "calibval":
+        import lumicks.pylake as lk
+
+        o, fixed = case["o"], case.get("fixed")
+        kw = dict(
+            bead_diameter=o["d"], temperature=o["temp"], sample_rate=78125.0, viscosity=o["visc"], hydrodynamically_correct=o["hydro"],
+            rho_sample=o["rho_s"], rho_bead=o["rho_b"], distance_to_surface=o["dist"], fast_sensor=o["fast"], axial=o["axial"],
+            drag=o.get("drag"), fixed_diode=None if fixed is None else fixed[0], fixed_alpha=None if fixed is None else fixed[1],
+            active_calibration=case["active"], driving_frequency_guess=case["guess"],
+            driving_data={"none": None, "empty": np.zeros(0), "ok": np.sin(np.arange(64) * 0.1)}[case["driving"]],
+        )
+        r = lk.calibrate_force(np.zeros(64), **kw)  # every case of this stream has to be refused before the data is touched
+        return [filter_shape(r)]
+    if k == "bounds":
+        cm = _cm()
+        if case["kind"] == "nofilter":
+            f = cm.NoFilter()
+        elif case["kind"] == "diode":
+            f = cm.DiodeModel()
+        else:
+            f = cm.FixedDiodeModel(case["fixed"][0], case["fixed"][1])
+        if not all(hasattr(f, nm) for nm in ("initial_values", "lower_bounds", "upper_bounds")):
+            # accessors used only by fit_power_spectrum: renamed ones take only this direct tie with them
+            _reach["filter.initial_values/lower_bounds/upper_bounds"] = False
+            raise Unreachable("filter bound accessors")
+        _reach["filter.initial_values/lower_bounds/upper_bounds"] = True
+        return ["ok " + " ".join(show_floats([float(v) for v in vals]) for vals in (f.initial_values, f.lower_bounds(), f.upper_bounds(case["rate"])))]
+    if k == "fitval":
+        # argument validation of lk.fit_power_spectrum on an exact Lorentzian of `npts` bins (fast sensor: 2 parameters)
+        lk = _pub()
+        m = build_model(base_opts(fast=True), None)
+        f = 100.0 + 500.0 * (np.arange(case["npts"]) + 0.5)
+        ps = make_ps(f, np.asarray(m(f, 1000.0, 1.0), dtype=float), 1.0, 100)
+        rng_anl = (10.0, 1e4) if case["anl"] else (1e5, 2e5)
+        lk.fit_power_spectrum(ps, m, analytical_fit_range=rng_anl, bias_correction=case["bias"], loss_function=case["loss"])
+        return ["ok"]
     if k == "drive":
         r = run_drive(case)
         _cache[("drive", case_key(case))] = r
-        return []
+        _cache[("drive-slice", case_key(case))] = drive_slice(case)
+        d = r["direct"]
+        if d is None:
+            return ["?"]
+        if "error" in d:
+            return [d["error"]]
+        return ["ok " + show_floats([d["freq"], d["amp"], d["amp_std"]])]
     raise ValueError(k)
 
 
@@ -413,6 +532,8 @@ def measured(m, drive=None):
         "amp": float(m.driving_amplitude),
         "amp_err": None if amp_err is None else float(amp_err),
         "maxP": float(ps.power[idx]),
+        # deepening round D: the whole spectrum of DrivenPower - the model takes the peak itself (np.argmax)
+        "powers": [float(v) for v in ps.power],
         "df": float(df),
         "perr": err,
     }
@@ -444,6 +565,11 @@ def meas_tokens(meas):
         f"{enc_float(meas['f'])} {enc_float(meas['amp'])} {enc_float(0.0 if meas['amp_err'] is None else meas['amp_err'])} "
         f"{enc_float(meas['maxP'])} {enc_float(meas['df'])} {enc_float(float('nan') if meas['perr'] is None else meas['perr'])}"
     )
+
+
+def powers_token(meas):
+    """optional last token of c11.active: the spectrum around the driving peak (the model finds the peak itself)"""
+    return "" if not meas.get("powers") else " " + fl(meas["powers"])
 
 
 def route_f2(case):
@@ -530,14 +656,21 @@ def impl_fit(c):
         "fixed_reported": [r1.diode_frequency, r1.diode_relaxation_factor],
         "fitted_diode": r1.fitted_diode,
         "chi2": r1.chi_squared_per_degree,
+        "chi2_0": r0.chi_squared_per_degree,
+        "pars0": [float(r0.results[nm].value) for nm in names],
+        "fs": [float(x) for x in f],
+        "ps": [float(x) for x in power],
     }
     info = {k: (float(v) if isinstance(v, (np.floating, float, int)) and not isinstance(v, bool) else v) for k, v in info.items()}
     _cache[("fit", case_key(c))] = info
     obs = passive_observables(m, o, r1)
+    dof = len(f) - 2 - len(names)
     return [
         enc_float(info["D"]) + " " + enc_float(info["eD"]),
         f"ok {branch_of(o)} " + show_floats(obs),
         "ok " + enc_float(info["model_at_probe"]),
+        # deepening round D: the objective of _fit_power_spectra as the code reports it (without bias correction)
+        "ok " + show_floats([info["chi2_0"] * dof, info["chi2_0"]]),
     ]
 
 
@@ -593,6 +726,8 @@ def impl_calib(c):
         drive = a["amp_um"] * np.sin(2 * np.pi * a["f"] * t + a["phase"]) + 1.3
         volts = volts + a["volts_amp"] * np.sin(2 * np.pi * a["f"] * t + a["phase"] - 0.3)
         kw.update(active_calibration=True, driving_data=drive, driving_frequency_guess=a["guess"])
+        if o.get("drag") is not None:  # only the falsy-drag cases of the matrix: `if drag:` must let 0.0 through
+            kw.update(drag=o["drag"])
     else:
         kw.update(axial=o["axial"], drag=o.get("drag"))
     r = lk.calibrate_force(volts, **kw)
@@ -614,13 +749,65 @@ def impl_calib(c):
     else:
         obs = passive_observables(r.model, o, r)
     _cache[("calib", case_key(c))] = info
-    return [f"ok {branch_of(o)} " + show_floats(obs)]
+    return [f"ok {branch_of(o)} " + show_floats(obs), filter_shape(r)]
 
 
-def run_drive(c):
+def filter_shape(r):
+    """public trace of the filter calibrate_force ended up with: per diode parameter fitted (has a standard error) /
+    fixed (reported without one) / absent, and the number of fitted parameters"""
+    st = []
+    for nm in ("f_diode", "alpha"):
+        if "err_" + nm in r.results:
+            st.append("fitted")
+        elif nm in r.params:  # fixed values are reported among the calibration parameters
+            st.append("fixed=" + enc_float(float(r.params[nm].value)))
+        else:
+            st.append("absent")
+    return f"ok {st[0]} {st[1]} {len(r.fitted_params)}"
+
+
+def calibsetup_op(o, fixed, active, driving, guess):
+    fd, al = (None, None) if fixed is None else fixed
+    return f"c11.calibsetup {opt_tokens(o)} {eo(fd)} {eo(al)} {enc_bool(active)} {enc_bool(driving)} {eo(guess)}"
+
+
+def drive_signal(c):
     g = np.random.default_rng(c["subseed"])
     t = np.arange(c["n"]) / c["rate"]
     x = c["amp"] * np.sin(2 * np.pi * c["f"] * t + c["phase"]) + c["offset"] + c["noise"] * g.standard_normal(c["n"])
+    for f2, a2 in c.get("tones", []):  # further tones inside / outside the search range (small scope of the peak search)
+        x = x + a2 * c["amp"] * np.sin(2 * np.pi * f2 * t + 0.4)
+    return x
+
+
+def drive_slice(c):
+    """what the model is handed: the part of numpy's spectrum of the Gaussian-windowed record (window, mean removal and
+    rfft are NOT modelled: recomputed here with the recipe of the docstring of estimate_driving_input_parameters) that
+    covers the search range and three bins on either side, the variance of the record and the two window sums"""
+    import scipy.signal
+
+    x = drive_signal(c)
+    n = len(x)
+    w = scipy.signal.windows.gaussian(M=n, std=n / c.get("window_factor", 10), sym=False)
+    spec = np.abs(np.fft.rfft(w * (x - np.mean(x))))
+    freq = np.fft.rfftfreq(n, 1.0 / c["rate"])
+    df = c["rate"] / n
+    fsr = c.get("f_search", 5.0)
+    keep = np.nonzero(np.logical_and(freq > c["guess"] - fsr - 3.5 * df, freq < c["guess"] + fsr + 3.5 * df))[0]
+    if len(keep) == 0:  # search range beyond the spectrum: the last bins (none of them inside the range)
+        keep = np.arange(max(0, len(freq) - 4), len(freq))
+    return {
+        "freqs": [float(v) for v in freq[keep]],
+        "mags": [float(v) for v in spec[keep]],
+        "lo": int(keep[0]),
+        "var": float(np.var(x)),
+        "sw": float(np.sum(w)),
+        "sw2": float(np.sum(w**2)),
+    }
+
+
+def run_drive(c):
+    x = drive_signal(c)
     out = {}
     # direct tie: the anchored estimator (a function of the `detail` package, no public name of its own)
     try:
@@ -632,12 +819,16 @@ def run_drive(c):
         out["direct"] = None
     else:
         try:
-            amp, freq, amp_std = estimate(c["rate"], x, c["guess"])
+            kw = {k: c[k] for k in ("window_factor", "f_search") if k in c}  # rarely used options (scope cases only)
+            amp, freq, amp_std = estimate(c["rate"], x, c["guess"], **kw)
             out["direct"] = {"amp": float(amp), "freq": float(freq), "amp_std": float(amp_std)}
         except Exception as e:  # noqa: BLE001
             out["direct"] = {"error": errname(e)}
     # public tie: the constructor of lk.ActiveCalibrationModel measures the stage signal with the same estimator and
     # publishes driving_amplitude [m] / driving_frequency [Hz]
+    if "window_factor" in c or "f_search" in c:
+        out["public"] = None  # the constructor of ActiveCalibrationModel has no such options
+        return out
     try:
         m = _pub().ActiveCalibrationModel(x, x, c["rate"], bead_diameter=1.0, driving_frequency_guess=c["guess"])
         out["public"] = {"amp": float(m.driving_amplitude) * 1e6, "freq": float(m.driving_frequency)}
@@ -678,14 +869,14 @@ def ops(case):
         return [
             f"c11.active {opt_tokens(case['o'])} {filt_tokens(case['o'], case.get('fixed'))} {meas_tokens(meas)} "
             f"{enc_float(case['fc'])} {enc_float(case['D'])} {enc_float(case['efc'])} "
-            f"{enc_float(case['eD'])} {fl(case['pars'])}"
+            f"{enc_float(case['eD'])} {fl(case['pars'])}{powers_token(meas)}"
         ]
     if k == "anl":
         return [f"c11.anl {enc_list(case['fs'], enc_rat)} {enc_list(case['ps'], enc_rat)} {enc_float(case['dur'])}"]
     if k == "fit":
         info = _cache.get(("fit", case_key(case)))
         if info is None:
-            return ["c11.bias 1 " + enc_float(0.0), "c11.fitfailed", "c11.fitfailed"]
+            return ["c11.bias 1 " + enc_float(0.0), "c11.fitfailed", "c11.fitfailed", "c11.fitfailed"]
         o = case["o"]
         fixed = case.get("fixed")
         # the filter parameters the spectrum model is evaluated with: fitted values in order
@@ -695,6 +886,8 @@ def ops(case):
             f"{enc_float(info['eD'])}",
             f"c11.psd {opt_tokens(o)} {filt_tokens(o, fixed)} {enc_float(info['fprobe'])} {enc_float(info['fc'])} "
             f"{enc_float(info['D'])} {fl(info['pars'])}",
+            f"c11.chi2 {opt_tokens(o)} {filt_tokens(o, fixed)} {fl(info['fs'])} {fl(info['ps'])} {case['nblock']} "
+            f"{enc_float(info['fc0'])} {enc_float(info['D0'])} {fl(info['pars0'])}",
         ]
     if k == "calib":
         info = _cache.get(("calib", case_key(case)))
@@ -707,16 +900,40 @@ def ops(case):
         if case.get("a") is None:
             return [
                 f"c11.passive {opt_tokens(o)} {enc_float(info['fc'])} {enc_float(info['D'])} {enc_float(info['efc'])} "
-                f"{enc_float(info['eD'])}"
+                f"{enc_float(info['eD'])}",
+                calibsetup_op(o, fixed, False, False, None),
             ]
         meas = info["meas"]
         return [
             f"c11.active {opt_tokens(o)} {filt_tokens(o, fixed)} {meas_tokens(meas)} "
             f"{enc_float(info['fc'])} {enc_float(info['D'])} {enc_float(info['efc'])} "
-            f"{enc_float(info['eD'])} {fl(info['pars'])}"
+            f"{enc_float(info['eD'])} {fl(info['pars'])}{powers_token(meas)}",
+            # impl_calib passes neither axial= nor drag= for active calibration
+            calibsetup_op(dict(o, axial=False), fixed, True, True, case["a"]["guess"]),
         ]
+    if k == "lloss":
+        m = build_model(case["o"], case.get("fixed"))
+        f, power = lloss_data(case, m)
+        return [
+            f"c11.lloss {opt_tokens(case['o'])} {filt_tokens(case['o'], case.get('fixed'))} {fl([float(x) for x in f])} "
+            f"{fl([float(x) for x in power])} {case['nblock']} {fl(case['scaled'])} {fl(case['scale'])}"
+        ]
+    if k == "calibval":
+        return [calibsetup_op(case["o"], case.get("fixed"), case["active"], case["driving"] == "ok", case["guess"])]
+    if k == "bounds":
+        kind = case["kind"] if case["kind"] != "fixed" else f"fixed {eo(case['fixed'][0])} {eo(case['fixed'][1])}"
+        return [f"c11.fitbounds {kind} {enc_float(case['rate'])}"]
+    if k == "fitval":
+        return [f"c11.fitvalidate {case['npts']} {case['loss']} {enc_bool(case['bias'])} {case['npts'] if case['anl'] else 0}"]
     if k == "drive":
-        return []
+        sl = _cache.get(("drive-slice", case_key(case)))
+        if sl is None:
+            return ["c11.drivefailed"]
+        return [
+            f"c11.drive {fl(sl['freqs'])} {fl(sl['mags'])} {enc_float(case['guess'])} {enc_float(case.get('f_search', 5.0))} "
+            f"{enc_float(2.0 / case['rate'])} {enc_float(float(case['n']))} {enc_float(sl['var'])} {enc_float(sl['sw'])} "
+            f"{enc_float(sl['sw2'])}"
+        ]
     raise ValueError(k)
 
 
@@ -730,6 +947,10 @@ def agree(case, i, ia, ma):
         return False
     if k == "anl":
         return agree_anl(case, ia, ma)
+    if k == "fit" and i == 3:
+        return agree_chi2(case, ia, ma)
+    if k == "drive":
+        return agree_drive(case, ia, ma)
     if k == "route" and i == 0:
         return ia == ma  # parameters are placed, not computed: bit-exact
     ti, tm = ia.split(" "), ma.split(" ")
@@ -746,6 +967,48 @@ def agree(case, i, ia, ma):
         elif a != b:
             return False
     return True
+
+
+def agree_chi2(case, ia, ma):
+    """chi^2 = n * sum (P/model - 1)^2.  On a noise-free spectrum every residual x = P/model - 1 is itself at the level
+    of the optimiser's tolerance, so the value is dominated by the rounding delta of x (64 ulp allowed: the hydrodynamic
+    spectrum is a page of complex arithmetic): |d chi^2| <= 2 delta sqrt(n N chi^2) + n N delta^2 (Cauchy-Schwarz),
+    plus the usual 1e-9 relative."""
+    vi, vm = parse_floats(ia.split(" ")[1]), parse_floats(ma.split(" ")[1])
+    if len(vi) != 2 or len(vm) != 2 or any(v is None for v in vi + vm):
+        return False
+    info = _cache.get(("fit", case_key(case)))
+    npts = len(info["fs"]) if info else case["npts"]
+    dof = npts - 2 - (len(info["names"]) if info else 0)
+    n = case["nblock"]
+    delta = 64 * 2.220446049250313e-16
+    c = abs(vm[0])
+    tol = 1e-9 * c + 2 * delta * math.sqrt(n * npts * c) + n * npts * delta * delta
+    return abs(vi[0] - vm[0]) <= tol and abs(vi[1] - vm[1]) <= tol / max(dof, 1)
+
+
+def agree_drive(case, ia, ma):
+    """frequency: 1e-9 relative.  amplitude = exp(p2 - p1^2/(4 p0) + ...): both terms of the exponent are as large as
+    |p2| (~ mu^2/(2 sigma^2), 1e3..1e6) and cancel to log K, and np.polyfit returns p2 with a relative error of a few
+    ulp times the conditioning of the 3x3 Vandermonde system: relative tolerance 1e-9 + 4096 ulp (1 + |p2|)."""
+    tm = ma.split(" ")
+    if tm[0] != "ok" or len(tm) != 4:
+        return False
+    vi, vm, pm = parse_floats(ia.split(" ")[1]), parse_floats(tm[2]), parse_floats(tm[3])
+    if len(vi) != 3 or len(vm) != 3 or any(v is None for v in vi + vm + pm):
+        return False
+    atol = 1e-9 + 4096 * 2.220446049250313e-16 * (1.0 + abs(pm[2]))
+    if not close(vi[0], vm[0], 1e-9):
+        return False
+    if not abs(vi[1] - vm[1]) <= atol * abs(vm[1]):
+        return False
+    # amp_std = ENBW sqrt(q) / sqrt(N), q = |var - amp^2/2|: for a clean sinusoid q is a difference of equal numbers;
+    # |sqrt(q) - sqrt(q')| <= sqrt|q - q'| and |q - q'| <= atol amp^2 + 4 ulp var
+    sl = _cache.get(("drive-slice", case_key(case))) or {"var": 0.0, "sw": 1.0, "sw2": 1.0}
+    n = float(case["n"])
+    factor = n * sl["sw2"] / (sl["sw"] ** 2) / math.sqrt(n)
+    dq = atol * vm[1] ** 2 + 4 * 2.220446049250313e-16 * abs(sl["var"])
+    return abs(vi[2] - vm[2]) <= 1e-9 * abs(vm[2]) + factor * math.sqrt(dq)
 
 
 def agree_anl(case, ia, ma):
@@ -1157,6 +1420,14 @@ def oracle_drive(c):
     both = _cache.get(("drive", case_key(c)))
     if both is None:
         return "drive: no result"
+    if c.get("scope"):
+        # small scope of the peak search: two tones / peak outside the range - the recovery clause does not apply; what
+        # the property text does determine: an answer lies inside the search range the caller asked for
+        for route in ("direct", "public"):
+            r = both[route]
+            if r is not None and "error" not in r and not abs(r["freq"] - c["guess"]) <= c.get("f_search", 5.0) * (1 + 1e-12):
+                return f"driving-peak: frequency {r['freq']} returned outside the search range {c['guess']} +- {c.get('f_search', 5.0)} Hz"
+        return None
     for route in ("direct", "public"):
         r = both[route]
         if r is None:
@@ -1205,7 +1476,7 @@ def nontrivial(case, ia):
         return ia[1].startswith("ok")
     if k == "calib":
         return ia[0].startswith("ok") or o_valid(case["o"], case.get("fixed")) is not None
-    if k == "drive":
+    if k in ("drive", "fitval", "bounds", "calibval", "lloss"):
         return True
     return False
 
@@ -1246,6 +1517,29 @@ def shrink(case):
             yield c
 
 
+def hydro_identifiability_det(c):
+    """the hypothesis of rational_spectrum_recovery_unique on the spectrum of a hydrodynamic fit case: determinant of the
+    rows (B^2 + C, B, 1) at the first, middle and last frequency, relative to the sum of the absolute values of its terms"""
+    o = c["o"]
+    eta = o["visc"]
+    if eta is None:
+        return None
+    gamma0 = 3 * math.pi * eta * o["d"] * 1e-6
+    r = o["d"] * 1e-6 / 2
+    l = None if o["dist"] is None else o["dist"] * 1e-6
+    rho = 997.0 if o["rho_s"] is None else o["rho_s"]
+    fm = gamma0 / (2 * math.pi * (4 / 3 * math.pi * r**3 * o["rho_b"]))
+    f = fit_grid(c)
+    rows = []
+    for x in (f[0], f[len(f) // 2], f[-1]):
+        z = o_complex_drag(float(x), gamma0, rho, r, l)
+        B = x * (z.imag - x / fm)
+        rows.append((B * B + (x * z.real) ** 2, B))
+    (w1, b1), (w2, b2), (w3, b3) = rows
+    terms = [w1 * b2, -w1 * b3, -b1 * w2, b1 * w3, w2 * b3, -w3 * b2]
+    return abs(sum(terms)) / max(sum(abs(v) for v in terms), 1e-300)
+
+
 def extra_coverage(results):
     cov = {"by_op": {}, "by_branch": {}, "errors": {}, "exploration": {}}
     for r in results:
@@ -1272,6 +1566,41 @@ def extra_coverage(results):
             1 for r in results if r["case"]["op"] == "calib" and r["case"]["o"]["axial"] and r["case"]["o"]["dist"] and not r["case"]["o"]["hydro"]
         ),
         "calibrate_force_rejections": sum(1 for r in results if r["case"]["op"] == "calib" and not r["impl"][0].startswith("ok")),
+    }
+    drv = [r for r in results if r["case"]["op"] == "drive"]
+    dbr = {}
+    for r in drv:
+        a = r["impl"][0] if r["impl"] else "?"
+        key = "ok" if a.startswith("ok") else a
+        dbr[key] = dbr.get(key, 0) + 1
+    cov["deepening_D"] = {
+        "chi2_objective_ties": sum(1 for r in fits if len(r["impl"]) > 3 and r["impl"][3].startswith("ok")),
+        "chi2_objective_ties_hydro": sum(1 for r in fits if len(r["impl"]) > 3 and r["impl"][3].startswith("ok") and r["case"]["o"]["hydro"]),
+        "chi2_objective_ties_noise_free": sum(1 for r in fits if len(r["impl"]) > 3 and r["impl"][3].startswith("ok") and not r["case"]["noisy"]),
+        "fit_validation_scope(impl answers)": {
+            k: sum(1 for r in results if r["case"]["op"] == "fitval" and r["impl"][0] == k) for k in ("ok", "RuntimeError", "ValueError")
+        },
+        "active_cases_with_model_side_peak_search(np.argmax of DrivenPower)": sum(
+            1 for r in results if r["ops"] and r["ops"][0].startswith("c11.active") and r["ops"][0].rstrip().endswith("]") and r["ops"][0].count("[") >= 2
+        ) if results and "ops" in results[0] else "n/a",
+        "calibrate_force_refusal_scope(impl answers)": {
+            k: sum(1 for r in results if r["case"]["op"] == "calibval" and r["impl"][0] == k)
+            for k in sorted({r["impl"][0] for r in results if r["case"]["op"] == "calibval"})
+        },
+        "calibrate_force_filter_shapes(impl)": {
+            k: sum(1 for r in results if r["case"]["op"] == "calib" and len(r["impl"]) > 1 and " ".join(x.split("=")[0] for x in r["impl"][1].split(" ")) == k)
+            for k in sorted({" ".join(x.split("=")[0] for x in r["impl"][1].split(" ")) for r in results if r["case"]["op"] == "calib" and len(r["impl"]) > 1})
+        },
+        "hydro_identifiability_determinant(relative, hypothesis of rational_spectrum_recovery_unique)": (
+            lambda ds: {"cases": len(ds), "min": min(ds) if ds else None, "nonzero": sum(1 for d in ds if d > 1e-9)}
+        )([d for d in (hydro_identifiability_det(r["case"]) for r in fits if r["case"]["o"]["hydro"]) if d is not None]),
+        "drive_estimator_ties": len(drv),
+        "drive_estimator_scope_cases": sum(1 for r in drv if r["case"].get("scope")),
+        "drive_estimator_branches(impl)": dict(sorted(dbr.items())),
+        "drive_estimator_branches(model)": {
+            k: sum(1 for r in drv if r["model"] and (r["model"][0].split(" ")[0] if not r["model"][0].startswith("ok") else "ok") == k)
+            for k in ("ok", "RuntimeError", "IndexError", "unmodelled-wraparound")
+        },
     }
     anl = [r for r in results if r["case"]["op"] == "anl"]
     br = {"a/b>0,b>0 (regular)": 0, "a/b<=0 (fc fall-back)": 0, "b<=0 (D fall-back)": 0, "singular": 0}
@@ -1578,6 +1907,10 @@ def calib_matrix(quick):
                 thermal = truth["D"] / (math.pi**2 * (f * f + truth["fc"] ** 2))
                 c["a"] = {"f": f, "amp_um": 0.5, "phase": 1.0, "volts_amp": math.sqrt(2 * (f / 5) * thermal * 1e3), "guess": 36.0}
             yield c
+            if drag is None and not hydro and not axial and dk in (0, 2) and fixed is None and not fast:
+                # a transferred drag of 0.0 is falsy: `if drag:` must treat it like None (passive: not applied; active: not refused)
+                c0 = dict(c, o=dict(o, drag=0.0), subseed=5000 + idx)
+                yield c0
 
 
 def drive_case(rng, stream, quick):
@@ -1598,6 +1931,132 @@ def drive_case(rng, stream, quick):
         "guess": f + rng.uniform(-3.0, 3.0),
         "subseed": rng.randint(0, 2**31),
     }
+
+
+def lloss_data(case, m):
+    """spectrum of a robust-loss case: the model at the generating parameters times a fixed pseudo-noise pattern"""
+    f = 150.0 + 380.0 * (np.arange(case["npts"]) + 0.5)
+    clean = np.asarray(m(f, *case["scale"]), dtype=float)
+    g = np.random.default_rng(case["subseed"])
+    return f, clean * g.gamma(case["nblock"], 1.0 / case["nblock"], size=len(f))
+
+
+def lloss_scope(rng, quick):
+    """robust loss: every filter shape x hydro (deterministic), scaled parameters around 1 (seeded)"""
+    r = rng.fork("lloss")
+    for hydro, (fast, fixed) in itertools.product(
+        (False, True), ((False, None), (True, None), (False, [9000.0, None]), (False, [None, 0.25]), (False, [12000.0, 0.5]))
+    ):
+        for rep in range(2 if quick else 10):
+            o = base_opts(d=1.1, visc=0.00095, temp=24.0, hydro=hydro, dist=5.0 if hydro and rep % 2 else None, fast=fast)
+            free = [v for v, fx in zip((11000.0, 0.35), fixed or (None, None)) if fx is None] if not fast else []
+            scale = [1400.0, 0.04, *free]
+            scaled = [1.0 if rep == 0 else r.uniform(0.8, 1.25) for _ in scale]
+            if len(scale) == 4 and scaled[3] * scale[3] > 1.0:
+                scaled[3] = 1.0
+            yield {"stream": "scope-robust-loss", "op": "lloss", "o": o, "fixed": fixed, "npts": 40, "nblock": r.choice([20, 150]), "scale": scale, "scaled": scaled, "subseed": 77 + rep}
+
+
+def calib_refusal(o, fixed, active, driving, guess):
+    """which error the documentation of lk.calibrate_force / the constructors promises for these keyword arguments (None:
+    accepted) - used ONLY to select the cases of the refusal scope, never as a verdict"""
+    if active and o["axial"]:
+        return "ValueError"
+    if active and o.get("drag"):
+        return "ValueError"
+    if fixed is not None and o["fast"]:
+        return "ValueError"
+    if active and driving != "ok":
+        return "ValueError"
+    if active and (not guess or guess < 0):
+        return "ValueError"
+    oo = dict(o, axial=False) if active else o
+    return o_valid(oo, fixed)
+
+
+def calibval_scope():
+    """exhaustive small scope of the refusals of lk.calibrate_force (deterministic): every combination of active x axial x
+    transferred drag {None, 0, value} x fast sensor x fixed {none, f_diode, alpha} x hydro x (active only) driving data
+    {None, empty, given} x frequency guess {None, 0, negative, positive} that has to be refused"""
+    for active, axial, drag, fast, fixed, hydro in itertools.product(
+        (False, True), (False, True), (None, 0.0, 3.0e-8), (False, True), (None, [9000.0, None], [None, 0.25]), (False, True)
+    ):
+        o = base_opts(d=1.3, visc=0.001, temp=22.0, hydro=hydro, axial=axial, fast=fast, drag=drag)
+        for driving, guess in itertools.product(("none", "empty", "ok"), (None, 0.0, -2.0, 17.0)) if active else ((("none", None),)):
+            if calib_refusal(o, fixed, active, driving, guess) is None:
+                continue
+            yield {"stream": "scope-calibrate_force-refusals", "op": "calibval", "o": o, "fixed": None if fixed is None else list(fixed), "active": active, "driving": driving, "guess": guess}
+
+
+def fit_scope():
+    """deterministic small scope of the objective tie (c11.chi2): hydro x surface x every filter shape x {noise-free, one
+    fixed noise realisation}, independent of the seed"""
+    for hydro, dist, (fast, fixed), noisy in itertools.product(
+        (False, True), (None, 7.0), ((False, None), (True, None), (False, [9000.0, None]), (False, [None, 0.25]), (False, [12000.0, 0.5])), (False, True)
+    ):
+        o = base_opts(d=1.1, visc=0.00095, temp=24.0, hydro=hydro, dist=dist, fast=fast, rho_s=None)
+        fdiode = fixed[0] if fixed is not None and fixed[0] is not None else 11000.0
+        alpha = fixed[1] if fixed is not None and fixed[1] is not None else 0.35
+        npts = 180
+        yield {
+            "stream": "scope-fit",
+            "op": "fit",
+            "o": o,
+            "fixed": fixed,
+            "fc": 1400.0,
+            "D": 0.04,
+            "fdiode": fdiode,
+            "alpha": alpha,
+            "fmin": 100.0,
+            "step": (23000.0 - 100.0) / npts,
+            "npts": npts,
+            "nblock": 150,
+            "dur": 150 / ((23000.0 - 100.0) / npts),
+            "noisy": noisy,
+            "subseed": 12345,
+        }
+
+
+def drive_scope():
+    """deterministic small scope of the peak search of estimate_driving_input_parameters (independent of the seed)"""
+    rate, n = 10000.0, 20000
+    for f in (17.0, 17.25, 36.9):
+        for off in (0.0, -4.6, 3.1, 6.2, -7.4, 6000.0):
+            for tones in ([], [(f + 2.0, 3.0)], [(f - 1.5, 0.5)]):
+                yield {
+                    "stream": "scope-drive",
+                    "op": "drive",
+                    "scope": True,
+                    "rate": rate,
+                    "n": n,
+                    "f": f,
+                    "amp": 0.8,
+                    "phase": 0.3,
+                    "offset": 1.1,
+                    "noise": 0.0,
+                    "guess": f + off,
+                    "tones": [list(t) for t in tones],
+                    "subseed": 1,
+                }
+    # rarely used options of the estimator: f_search (width of the search range), window_factor (width of the window)
+    for f_search, wf, off in itertools.product((2.0, 9.5), (6, 10, 14), (0.0, 1.7, -2.6, 8.0)):
+        yield {
+            "stream": "scope-drive",
+            "op": "drive",
+            "scope": True,
+            "rate": rate,
+            "n": n,
+            "f": 21.3,
+            "amp": 0.8,
+            "phase": 0.3,
+            "offset": 1.1,
+            "noise": 0.0,
+            "guess": 21.3 + off,
+            "tones": [],
+            "subseed": 1,
+            "f_search": f_search,
+            "window_factor": wf,
+        }
 
 
 FIXED_PATTERNS = [None, [9000.0, None], [None, 0.25], [12000.0, 0.5]]
@@ -1697,9 +2156,28 @@ def cases(tier, rng):
     r = rng.fork("fit")
     for i in range(80 if quick else 1200):
         yield fit_case(r, "exploration-fit", quick, noisy=(i % 2 == 1))
+    yield from fit_scope()
     r = rng.fork("drive")
     for _ in range(30 if quick else 400):
         yield drive_case(r, "exploration-drive", quick)
+    yield from drive_scope()
+    # ---- start values and bounds of the filter parameters: every filter shape x two sample rates (+ invalid fixed values)
+    for rate in (78125.0, 50000.0):
+        yield {"stream": "scope-fit-bounds", "op": "bounds", "kind": "nofilter", "rate": rate}
+        yield {"stream": "scope-fit-bounds", "op": "bounds", "kind": "diode", "rate": rate}
+        for fixed in ([None, None], [9000.0, None], [None, 0.25], [12000.0, 0.5], [None, 0.0], [None, 1.0]):
+            yield {"stream": "scope-fit-bounds", "op": "bounds", "kind": "fixed", "fixed": fixed, "rate": rate}
+        for fixed in ([None, 1.5], [0.0, None], [-3.0, 0.5]):
+            yield {"stream": "malformed", "op": "bounds", "kind": "fixed", "fixed": fixed, "rate": rate}
+    yield from calibval_scope()
+    yield from lloss_scope(rng, quick)
+    # ---- signs of the fitted parameters (np.abs of the optimiser's solution): the spectrum at every sign pattern
+    for hydro, sfc, sfd, sal in itertools.product((False, True), (1.0, -1.0), (1.0, -1.0), (1.0, -1.0)):
+        o = base_opts(d=1.1, visc=0.00095, temp=24.0, hydro=hydro)
+        yield {"stream": "scope-psd-signs", "op": "psd", "o": o, "fixed": None, "f": 2345.6, "fc": sfc * 1400.0, "D": 0.04, "pars": [sfd * 11000.0, sal * 0.35]}
+    # ---- argument validation of fit_power_spectrum: exhaustive small scope (deterministic)
+    for npts, loss, bias, anl in itertools.product((3, 4, 5, 12), ("gaussian", "lorentzian", "huber"), (False, True), (True, False)):
+        yield {"stream": "scope-fit-validation", "op": "fitval", "npts": npts, "loss": loss, "bias": bias, "anl": anl}
     yield from calib_matrix(quick)
     r = rng.fork("calib")
     for i in range(16 if quick else 160):
